@@ -84,10 +84,13 @@ def pool_side_effects(case, mode, seed, n_queries=2, check_clone=True):
             c = clone(qs)
             twin = case.build()
             d2 = case.data(seed)
+            np.random.seed(4242)   # strategies that (wrongly) use the global generator: C06's business
             o_c = _call(c.query, **case.query_kwargs(d2, case.models(), mode))
             d3 = case.data(seed)
+            np.random.seed(4242)
             o_t = _call(twin.query, **case.query_kwargs(d3, case.models(), mode))
             d4 = case.data(seed)
+            np.random.seed(4242)
             o_t2 = _call(case.build().query, **case.query_kwargs(d4, case.models(), mode))
             if snap.out_canon(o_t) == snap.out_canon(o_t2) and snap.out_canon(o_c) != snap.out_canon(o_t):
                 findings.append(dict(kind="clone-differs", name="strategy", what="clone(strategy) after a query answers differently from a freshly constructed twin"))
